@@ -8,7 +8,9 @@ the external read arguments and every interpretation of the hand-written callees
 `read` returns `Ok(marker)` then every generated getter's `unwrap()` is applied to `Some`/`Ok` and no
 `start + len` in the marker's range fns overflows.
 -/
-import FontVerif.Lemmas.Shape
+import FontVerif.Lemmas.ShapeTotal
+import FontVerif.Model.ShapeExt
+import FontVerif.Gen.ReadShapes
 
 set_option linter.unusedVariables false
 set_option linter.unusedSimpArgs false
@@ -69,6 +71,7 @@ theorem shape_getters_safe (ext : Ext)
     cases gk with
     | rangeOnly => trivial
     | varLen => simp only []; omega
+    | varLenSlice => exact ⟨hle, hend⟩
     | readAt sz =>
       simp only []
       cases k with
@@ -187,12 +190,112 @@ theorem shape_getters_safe (ext : Ext)
         | rem => simp [getterCompat] at hcompat
         | varLen vk c => simp [getterCompat] at hcompat
 
-/-- `read` of a well-formed program never reaches an unbound local (the artefact error `stuck`):
-whatever it returns is `Ok` or a genuine `ReadError`. -/
-theorem run_total (ext : Ext) (s : Shape) (d : Data) (argVals : List Nat) :
-    (∃ m, run ext s d argVals = .ok m) ∨ (∃ e, run ext s d argVals = .error e) := by
-  cases h : run ext s d argVals with
-  | ok m => exact Or.inl ⟨m, rfl⟩
-  | error e => exact Or.inr ⟨e, rfl⟩
+/-! ## `read` returns `Ok` or a genuine `ReadError` -/
+
+/-- **`read` is total on the error side too**: a well-formed reader program never reaches the
+artefact state `stuck` (use of an unbound `*_byte_len` local), i.e. the model's `run` always
+returns `Ok(marker)` or one of the `ReadError`s the Rust can return.  `hext`: the hand-written
+`compute_size` impls return their own errors, not the artefact. -/
+theorem run_never_stuck (ext : Ext) (hext : ∀ r vs, ext.size r vs ≠ .error .stuck)
+    (s : Shape) (hwf : WF s) (d : Data) (argVals : List Nat) :
+    run ext s d argVals ≠ .error .stuck := by
+  have key : ∀ (fps : List FieldP) (st : St),
+      runSteps ext d (fps.flatMap stepsOf) st ≠ .error .stuck := by
+    intro fps
+    induction fps with
+    | nil => intro st; simp [runSteps]
+    | cons fp rest ih =>
+      intro st h
+      simp only [List.flatMap_cons] at h
+      rcases runSteps_append_err _ _ _ _ h with h1 | ⟨st1, _, h2⟩
+      · exact field_not_stuck ext hext d fp st h1
+      · exact ih st1 h2
+  unfold run
+  rw [hwf.1]
+  split
+  · rename_i e he; intro h; cases h; exact key _ _ he
+  · split <;> simp
+
+/-! ## the readers that exist in read-fonts/generated -/
+
+/-- The concrete interpretation of the hand-written callees (Model/ShapeExt.lean, tied to the Rust
+by the correspondence harness) satisfies the one hypothesis of `shape_getters_safe`. -/
+theorem concreteExt_hrec (t : Tables) :
+    ∀ r vs n, (concreteExt t).size r vs = .ok n → (concreteExt t).recRead r vs n = true := by
+  intro r vs n h
+  simp only [concreteExt] at h ⊢
+  unfold recReadFn
+  cases hn : t.sizeNames[r]? with
+  | none => simp [sizeFn, hn] at h
+  | some name =>
+    simp only []
+    split
+    · rename_i fmt
+      rw [sizeFn_hand t 7 r [fmt] "ValueRecord" (2 * popcount 8 (fmt % 256)) hn (by simp [handSize])] at h
+      simp only [Except.ok.injEq] at h
+      simp [handRecRead, h]
+    · rename_i off
+      rw [sizeFn_hand t 7 r [off] "IdDeltaOrLength" (if off = 0 then 3 else 2) hn (by simp [handSize])] at h
+      simp only [Except.ok.injEq] at h
+      simp [handRecRead, h]
+    · simp [h]
+
+/-- **Every generated table reader of read-fonts is safe to traverse.**  For each reader in the
+registry that translate/shapes.py regenerates from read-fonts/generated/*.rs on every run, for every
+byte string, every value of the read arguments and every interpretation `ext` of the hand-written
+callees: if `read` / `read_with_args` succeeds then every generated getter unwraps `Some`/`Ok` and
+no `*_byte_range()` overflows. -/
+theorem generated_getters_safe (ext : Ext)
+    (hrec : ∀ r vs n, ext.size r vs = .ok n → ext.recRead r vs n = true) :
+    ∀ p ∈ Gen.ReadShapes.allShapes, ∀ (d : Data), d.len < MAXU →
+      ∀ (argVals : List Nat) (m : Marker), run ext p.2 d argVals = .ok m →
+        ∀ g ∈ p.2.getters, getterOk ext p.2 d m g :=
+  fun p hp d hL argVals m hr =>
+    shape_getters_safe ext hrec p.2 (Gen.ReadShapes.allShapes_wf p hp) d hL argVals m hr
+
+/-- … in particular for the transcribed callees the driver runs -/
+theorem generated_getters_safe_concrete (t : Tables) :
+    ∀ p ∈ Gen.ReadShapes.allShapes, ∀ (d : Data), d.len < MAXU →
+      ∀ (argVals : List Nat) (m : Marker), run (concreteExt t) p.2 d argVals = .ok m →
+        ∀ g ∈ p.2.getters, getterOk (concreteExt t) p.2 d m g :=
+  generated_getters_safe (concreteExt t) (concreteExt_hrec t)
+
+/-- … and none of them can reach the artefact state -/
+theorem generated_never_stuck (ext : Ext) (hext : ∀ r vs, ext.size r vs ≠ .error .stuck) :
+    ∀ p ∈ Gen.ReadShapes.allShapes, ∀ (d : Data) (argVals : List Nat),
+      run ext p.2 d argVals ≠ .error .stuck :=
+  fun p hp d argVals => run_never_stuck ext hext p.2 (Gen.ReadShapes.allShapes_wf p hp) d argVals
+
+/-! ## non-vacuity -/
+
+/-- a 28-byte table directory with one record is accepted, so the theorem's hypothesis is satisfiable -/
+def exDir : Data := ⟨28, fun i => if i = 5 then 1 else 0⟩
+
+example : (match run (concreteExt ⟨[], [], []⟩) Gen.ReadShapes.font_TableDirectory_shape exDir [] with
+           | .ok m => rangeById m [] Gen.ReadShapes.font_TableDirectory_shape.fields 5 == some (.range 12 28)
+           | .error _ => false) = true := by decide +kernel
+
+/-- one byte less is rejected with `OutOfBounds` -/
+example : (match run (concreteExt ⟨[], [], []⟩) Gen.ReadShapes.font_TableDirectory_shape ⟨27, exDir.byte⟩ [] with
+           | .ok _ => false
+           | .error e => e == .oob) = true := by decide +kernel
+
+example : Gen.ReadShapes.allShapes.length = 256 := by decide +kernel
+
+example : ("font_TableDirectory", Gen.ReadShapes.font_TableDirectory_shape) ∈ Gen.ReadShapes.allShapes := by
+  simp [Gen.ReadShapes.allShapes, Gen.ReadShapes.chunk0]
+
+/-- `WF` is not vacuous: the program a *missing bounds check* would produce — a getter reading a
+4-byte scalar where `read` only advanced over 2 — is rejected, and indeed its getter fails on an
+accepted input. -/
+def badShape : Shape :=
+  { args := [], steps := [.adv 2], fields := [⟨0, false, .const 2⟩], prog := [⟨0, .scalar 2 none⟩],
+    getters := [⟨0, .readAt 4⟩] }
+
+example : ¬ WF badShape := by decide +kernel
+
+example : (match run (concreteExt ⟨[], [], []⟩) badShape ⟨2, fun _ => 0⟩ [] with
+           | .ok m => !(decide ((readAt ⟨2, fun _ => 0⟩ 0 4).isSome))
+           | .error _ => false) = true := by decide +kernel
 
 end FontVerif.C01
